@@ -107,6 +107,36 @@ def checked_fit(ctx, est, *a, **kw):
     return est
 
 
+def state_snapshot(est):
+    """Byte-wise snapshot of every attribute of a fitted estimator (arrays, lists of arrays, nested skmatter/sklearn estimators)."""
+    out = {}
+    for k, v in sorted(vars(est).items()):
+        if isinstance(v, (np.ndarray, list, tuple, dict)):
+            out[k] = snap(v)
+        elif isinstance(v, (int, float, str, bool, type(None), np.generic)):
+            out[k] = ("other", repr(v))
+        elif hasattr(v, "__dict__") and type(v).__module__.split(".")[0] in ("skmatter", "sklearn"):
+            out[k] = ("est", tuple(sorted((kk, snap(vv) if isinstance(vv, (np.ndarray, list, tuple, dict)) else repr(type(vv)))
+                                          for kk, vv in vars(v).items())))
+    return out
+
+
+def queries_pure(ctx, est, calls):
+    """Query methods are read-only: calling them leaves the fitted state untouched and repeating them gives the same answers."""
+    s0 = state_snapshot(est)
+    r1 = [(n, snap(np.asarray(f()))) for n, f in calls]
+    s1 = state_snapshot(est)
+    changed = sorted(k for k in s0 if s0[k] != s1.get(k)) + sorted(k for k in s1 if k not in s0)
+    # lazily filled private caches are allowed to appear; fitted (public) attributes and anything that existed must not change
+    changed = [k for k in changed if not (k.startswith("_") and k not in s0) and not (k.startswith("_") and s0.get(k) == ("other", "None"))]
+    if changed:
+        ctx.fail("query-changed-fitted-state", "%s: calling %s changed attribute(s) %s" % (type(est).__name__, [n for n, _ in calls], changed))
+    r2 = [(n, snap(np.asarray(f()))) for n, f in calls]
+    diff = [n for (n, a), (_, b) in zip(r1, r2) if a != b]
+    if diff:
+        ctx.fail("query-not-repeatable", "%s: %s return different results when called a second time" % (type(est).__name__, diff))
+
+
 def public_state(est):
     return {k: v for k, v in vars(est).items() if k.endswith("_") and not k.startswith("_")}
 
@@ -200,6 +230,14 @@ def _selector_entry(mod, modname, cls):
     def call(ctx, X, y):
         s = C(n_to_select=3)
         checked_fit(ctx, s, X, y)
+        q = [("get_support()", lambda: s.get_support()), ("get_support(indices)", lambda: s.get_support(indices=True)),
+             ("get_support(indices,ordered)", lambda: s.get_support(indices=True, ordered=True)), ("selected_idx_", lambda: s.selected_idx_),
+             ("score", lambda: s.score(X, y))]
+        if hasattr(s, "get_distance"):
+            q += [("get_distance", lambda: s.get_distance()), ("get_select_distance", lambda: s.get_select_distance())]
+        if mod is FS:
+            q.append(("transform", lambda: s.transform(X)))
+        queries_pure(ctx, s, q)
         s.get_support()
         s.get_support(indices=True)
         if mod is FS:
@@ -240,6 +278,8 @@ ENTRIES["feature_selection.FPS(initialize=array)"] = (
 def _voronoi(ctx, X, y):
     s = SS.VoronoiFPS(n_to_select=3, full_fraction=0.5)
     checked_fit(ctx, s, X, y)
+    queries_pure(ctx, s, [("get_support(indices)", lambda: s.get_support(indices=True)), ("get_support(indices,ordered)", lambda: s.get_support(indices=True, ordered=True)),
+                          ("get_distance", lambda: s.get_distance()), ("get_select_distance", lambda: s.get_select_distance())])
     s.n_to_select = 5
     s.fit(X, y, warm_start=True)
     s.get_distance()
@@ -254,8 +294,8 @@ ENTRIES["sample_selection.VoronoiFPS(full_fraction=None)"] = (
 def _dch(ctx, X, y):
     d = SS.DirectionalConvexHull(low_dim_idx=[0, 1])
     checked_fit(ctx, d, X, y)
-    d.score_samples(X, y)
-    d.score_feature_matrix(X)
+    queries_pure(ctx, d, [("score_samples", lambda: d.score_samples(X, y)), ("score_feature_matrix", lambda: d.score_feature_matrix(X)),
+                          ("selected_idx_", lambda: d.selected_idx_)])
 
 
 ENTRIES["sample_selection.DirectionalConvexHull"] = (lambda d: {"X": d["X"], "y": d["y"]}, _dch)
@@ -266,10 +306,8 @@ def _pcovr(space):
         p = PCovR(n_components=2, space=space, mixing=0.5)
         checked_fit(ctx, p, X, Y)
         T = p.transform(X)
-        p.predict(X)
-        p.predict(T=T)
-        p.inverse_transform(T)
-        p.score(X, Y)
+        queries_pure(ctx, p, [("transform", lambda: p.transform(X)), ("predict", lambda: p.predict(X)), ("predict(T)", lambda: p.predict(T=T)),
+                              ("inverse_transform", lambda: p.inverse_transform(T)), ("score", lambda: p.score(X, Y))])
         PCovR(n_components=2, space=space).fit_transform(X, Y)
     return call
 
@@ -302,9 +340,8 @@ def _kpcovr(ctx, X, Y):
     p = KernelPCovR(n_components=2, kernel="rbf", gamma=0.3, center=True, fit_inverse_transform=True)
     checked_fit(ctx, p, X, Y)
     T = p.transform(X)
-    p.predict(X)
-    p.score(X, Y)
-    p.inverse_transform(T)
+    queries_pure(ctx, p, [("transform", lambda: p.transform(X)), ("predict", lambda: p.predict(X)), ("score", lambda: p.score(X, Y)),
+                          ("inverse_transform", lambda: p.inverse_transform(T))])
 
 
 ENTRIES["decomposition.KernelPCovR"] = (lambda d: {"X": d["X"], "Y": d["Y"]}, _kpcovr)
@@ -356,8 +393,7 @@ def _sfs(copyflag):
         s = SFS(column_wise=True, copy=copyflag)
         checked_fit(ctx, s, X, sample_weight=w)
         Z = s.transform(X)
-        s.transform(Xn)
-        s.inverse_transform(Z)
+        queries_pure(ctx, s, [("transform", lambda: s.transform(X)), ("transform(new)", lambda: s.transform(Xn)), ("inverse_transform", lambda: s.inverse_transform(Z))])
         SFS(copy=copyflag).fit_transform(X)
     return call
 
@@ -370,8 +406,7 @@ for _cf in (False, True):
 def _kn(ctx, K, w, Kt):
     k = KN()
     checked_fit(ctx, k, K, sample_weight=w)
-    k.transform(K)
-    k.transform(Kt)
+    queries_pure(ctx, k, [("transform", lambda: k.transform(K)), ("transform(test)", lambda: k.transform(Kt))])
     KN().fit_transform(K, sample_weight=w)
     KN(with_center=False).fit(K).transform(Kt)
 
@@ -417,9 +452,7 @@ def _kde_args(d):
 def _kde(ctx, desc, w, grid, Q, cell):
     k = SparseKDE(desc, w, metric_params={"cell_length": cell}, fpoints=0.4)
     checked_fit(ctx, k, grid)
-    k.score_samples(Q)
-    k.score(Q)
-    k.sample(3, random_state=0)
+    queries_pure(ctx, k, [("score_samples", lambda: k.score_samples(Q)), ("score", lambda: k.score(Q)), ("sample", lambda: k.sample(3, random_state=0))])
 
 
 ENTRIES["neighbors.SparseKDE(cell, weights)"] = (_kde_args, _kde)
